@@ -1913,7 +1913,8 @@ func (gs *GossipSubRouter) heartbeat() {
 	// expire fanout for topics we haven't published to in a while
 	now := time.Now().UnixNano()
 	for topic, lastpub := range gs.lastpub {
-		if lastpub+int64(gs.params.FanoutTTL) < now {
+		// compare the age, not a sum: lastpub plus a very large TTL would overflow
+		if now-lastpub > int64(gs.params.FanoutTTL) {
 			delete(gs.fanout, topic)
 			delete(gs.lastpub, topic)
 		}
